@@ -22,6 +22,7 @@ import (
 	"strconv"
 	"strings"
 	"sync"
+	"syscall"
 	"time"
 
 	"github.com/google/uuid"
@@ -30,6 +31,7 @@ import (
 	"github.com/semafind/semadb/diskstore"
 	"github.com/semafind/semadb/models"
 	"github.com/vmihailenco/msgpack/v5"
+	"golang.org/x/sys/unix"
 
 	"verifharness/vh"
 )
@@ -1378,6 +1380,68 @@ func (s *seededReader) Read(p []byte) (int, error) {
 	return len(p), nil
 }
 
+// ------------------------------------------------------------------------------------ isolation
+//
+// The host names of the nodes ("127.0.0.1:<port>") are what RendezvousHash hashes, so the ports are
+// part of the scenario and derive from the seed.  Two runs with the same seed on one machine would
+// use the same ports: while the nodes of one run are down between two rounds the other run can bind
+// them, and a sender then delivers its records to a node of the OTHER run (seen as UNKNOWN keys in a
+// dump: a false alarm).  The scenarios therefore run in a network namespace of their own (own
+// loopback, every port free: the ports, hence the placements, are reproducible).  Where that is not
+// permitted the run holds an exclusive lock per seed instead.
+
+const exitNoNetns = 78
+
+func loopbackUp() error {
+	fd, err := unix.Socket(unix.AF_INET, unix.SOCK_DGRAM, 0)
+	if err != nil {
+		return err
+	}
+	defer unix.Close(fd)
+	ifr, err := unix.NewIfreq("lo")
+	if err != nil {
+		return err
+	}
+	if err := unix.IoctlIfreq(fd, unix.SIOCGIFFLAGS, ifr); err != nil {
+		return err
+	}
+	ifr.SetUint16(ifr.Uint16() | unix.IFF_UP | unix.IFF_RUNNING)
+	if err := unix.IoctlIfreq(fd, unix.SIOCSIFFLAGS, ifr); err != nil {
+		return err
+	}
+	l, err := net.Listen("tcp", "127.0.0.1:0")
+	if err != nil {
+		return err
+	}
+	return l.Close()
+}
+
+// runInner runs the scenarios (`-inner`) in a child process: in a new network namespace if possible,
+// otherwise under a per-seed lock.  Returns the combined output and the error of the run.
+func runInner(self string, seed uint64, args ...string) ([]byte, error) {
+	var buf bytes.Buffer
+	cmd := exec.Command(self, append([]string{"-inner", "-netns"}, args...)...)
+	cmd.SysProcAttr = &syscall.SysProcAttr{Unshareflags: syscall.CLONE_NEWNET}
+	cmd.Stdout = &buf
+	cmd.Stderr = &buf
+	err := cmd.Run()
+	if ee, ok := err.(*exec.ExitError); err == nil || (ok && ee.ExitCode() != exitNoNetns) {
+		return buf.Bytes(), err
+	}
+	// no namespace: serialise the runs of this seed on this machine
+	if lock, lerr := os.OpenFile(filepath.Join(os.TempDir(), fmt.Sprintf("verif-c14-seed%d.lock", seed)), os.O_CREATE|os.O_RDWR, 0o666); lerr == nil {
+		defer lock.Close()
+		unix.Flock(int(lock.Fd()), unix.LOCK_EX)
+		defer unix.Flock(int(lock.Fd()), unix.LOCK_UN)
+	}
+	buf.Reset()
+	cmd = exec.Command(self, append([]string{"-inner"}, args...)...)
+	cmd.Stdout = &buf
+	cmd.Stderr = &buf
+	err = cmd.Run()
+	return buf.Bytes(), err
+}
+
 // ------------------------------------------------------------------------------------ main
 
 func main() {
@@ -1387,6 +1451,7 @@ func main() {
 	tier := flag.String("tier", "quick", "")
 	isChild := flag.Bool("child", false, "")
 	inner := flag.Bool("inner", false, "")
+	netns := flag.Bool("netns", false, "")
 	root := flag.String("root", "", "")
 	port := flag.Int("port", 0, "")
 	servers := flag.String("servers", "", "")
@@ -1408,14 +1473,11 @@ func main() {
 		var tail string
 		for attempt := 0; attempt < 2; attempt++ {
 			os.Remove(filepath.Join(*outDir, "stats.json"))
-			cmd := exec.Command(self, "-inner", "-seed", strconv.FormatUint(*seed, 10), "-tier", *tier, "-out", *outDir)
-			var buf bytes.Buffer
-			cmd.Stdout = &buf
-			cmd.Stderr = &buf
-			err := cmd.Run()
+			out, err := runInner(self, *seed, "-seed", strconv.FormatUint(*seed, 10), "-tier", *tier, "-out", *outDir)
 			if _, serr := os.Stat(filepath.Join(*outDir, "stats.json")); err == nil && serr == nil {
 				return
 			}
+			buf := bytes.NewBuffer(out)
 			lines := strings.Split(buf.String(), "\n")
 			var keep []string
 			for _, l := range lines {
@@ -1432,6 +1494,12 @@ func main() {
 		fmt.Println("harness process crashed twice; output of the last attempt:")
 		fmt.Println(tail)
 		os.Exit(3)
+	}
+	if *netns {
+		if err := loopbackUp(); err != nil {
+			fmt.Println("no usable loopback in the new network namespace:", err)
+			os.Exit(exitNoNetns)
+		}
 	}
 	tmp, err := os.MkdirTemp("", "c14-")
 	if err != nil {
@@ -1628,8 +1696,7 @@ func runReplay(self, path string) {
 	}
 	tmp, _ := os.MkdirTemp("", "c14-replay-")
 	defer os.RemoveAll(tmp)
-	cmd := exec.Command(self, "-inner", "-seed", strconv.FormatUint(seed, 10), "-tier", tier, "-out", tmp)
-	cmd.Run()
+	runInner(self, seed, "-seed", strconv.FormatUint(seed, 10), "-tier", tier, "-out", tmp)
 	ops, _ := os.ReadFile(filepath.Join(tmp, "ops.txt"))
 	impl, _ := os.ReadFile(filepath.Join(tmp, "impl.txt"))
 	opl := strings.Split(strings.TrimSpace(string(ops)), "\n")
